@@ -20,10 +20,13 @@ OFF = {k: False for k in ALL}
 def one(path):
     import python_minifier
     out = []
-    try:
-        src = open(path, 'rb').read()
-    except OSError:
-        return path, None, []
+    if isinstance(path, tuple):          # ('synthetic:<k>', source text): only measured while searching for a witness of a broken obligation
+        path, src = path[0], path[1].encode('utf-8')
+    else:
+        try:
+            src = open(path, 'rb').read()
+        except OSError:
+            return path, None, []
     cache = {}
 
     def m(opts):
@@ -48,11 +51,99 @@ def one(path):
     return path, hashlib.sha256(src).hexdigest(), out
 
 
+
+# ------------------------------------------------------------------------------------------------ leg K: the cost accounting
+IMPORT_SHAPES = [
+    "def stamp(flag):\n    if flag:\n        import time\n        return time.time()\n    else:\n        import time\n        return time.sleep(0) or time.time()\n",
+    "import time\nimport time\nprint(time.time(), time.time())\n",
+    "def load(kind):\n    if kind:\n        from json import loads\n    else:\n        from json import loads\n    return loads('1'), loads('2')\n",
+    "def both():\n    import os\n    import os\n    import os.path\n    return os.sep, os.sep, os.sep, os.sep, os.sep, os.sep\n",
+    "try:\n    import cPickle as pickle\nexcept ImportError:\n    import pickle\nprint(pickle.dumps, pickle.loads)\n",
+    "def handler(event, context, /, retries=3, *extra, timeout=None, **options):\n    return event, context, retries, extra, timeout, options, event, context\n",
+    "def visit(node):\n    match node:\n        case [first, *rest]:\n            return first, rest\n        case {'k': value, **others}:\n            return value, others\n        case str() as text:\n            return text\n",
+    "counter = 0\ndef bump():\n    global counter, counter\n    counter += 1\n    return counter\n",
+    "def outer():\n    total = 0\n    def inner():\n        nonlocal total\n        total += 1\n        return total\n    try:\n        inner()\n    except ValueError as problem:\n        return problem\n    return total\n",
+]
+
+
+def refkind(node, name):
+    import ast
+    from python_minifier.rename.util import arg_rename_in_place
+    if isinstance(node, ast.Name):
+        return 'RName'
+    if isinstance(node, (ast.FunctionDef, ast.AsyncFunctionDef, ast.ClassDef)):
+        return 'RDef'
+    if isinstance(node, ast.ExceptHandler):
+        return 'RExcept'
+    if isinstance(node, (ast.Global, ast.Nonlocal)):
+        return '(RDecl %d)' % len([n for n in node.names if n == name])
+    if isinstance(node, ast.alias):
+        return 'RAliasPlain' if node.asname is None else 'RAliasAs'
+    if isinstance(node, ast.arg):
+        return 'RArgInPlace' if arg_rename_in_place(node) else 'RArgRebind'
+    if isinstance(node, ast.arguments):
+        return '(RStar %d)' % ((node.vararg == name) + (node.kwarg == name))
+    if isinstance(node, (ast.MatchAs, ast.MatchStar, ast.MatchMapping)):
+        return 'RMatch'
+    if type(node).__name__ in ('TypeVar', 'TypeVarTuple', 'ParamSpec'):
+        return 'RTypeParam'
+    return None
+
+
+def leg_K(res, sources):
+    """Model/Cost.v (additional_byte_cost, old_mention_count, new_mention_count, should_rename) against the real methods of every
+    NameBinding of real programs, asked before anything is renamed"""
+    import python_minifier, warnings
+    from python_minifier.rename.renamer import all_bindings
+    from python_minifier.rename.binding import NameBinding, BuiltinBinding
+    rows = []
+    real = python_minifier.rename
+
+    def wrapper(module, prefix_globals=False, preserved_globals=None):
+        for _ns, b in all_bindings(module):
+            if type(b) is not NameBinding or not isinstance(b.name, str):
+                continue
+            kinds = [refkind(n, b.name) for n in b.references]
+            if None in kinds:
+                continue
+            rows.append((kinds, len(b.name), b.additional_byte_cost(), b.old_mention_count(), b.new_mention_count(), [bool(b.should_rename('A' * k)) for k in (1, 2, 3)]))
+        return real(module, prefix_globals=prefix_globals, preserved_globals=preserved_globals)
+    python_minifier.rename = wrapper
+    try:
+        for src in sources:
+            try:
+                with warnings.catch_warnings():
+                    warnings.simplefilter('ignore')
+                    python_minifier.minify(src, rename_globals=True)
+            except Exception:
+                continue
+    finally:
+        python_minifier.rename = real
+    seen, cases = set(), []
+    for kinds, ln, add, old, new, sh in rows:
+        key = (tuple(kinds), ln, add, old, new, tuple(sh))
+        if key in seen:
+            continue
+        seen.add(key)
+        cases.append('let r := [%s] in Nat.eqb (additional_byte_cost r) %d && Nat.eqb (old_mention_count r) %d && Nat.eqb (new_mention_count r) %d && %s'
+                     % ('; '.join(kinds), add, old, new, ' && '.join('Bool.eqb (should_rename_refs r %d %d) %s' % (ln, k + 1, 'true' if v else 'false') for k, v in enumerate(sh))))
+    n, failing, raw = common.run_cases('c17K', ['From PM Require Import Model.Base Gen.TokenRules Model.Cost.', 'Open Scope bool_scope.', 'Open Scope nat_scope.'], cases, shard=300)
+    if failing is None:
+        res.broken.append(('correspondence', 'leg K: cost model evaluation failed: ' + raw[-400:]))
+    elif failing:
+        res.broken.append(('correspondence', 'leg K: Model/Cost.v (additional_byte_cost / old_mention_count / new_mention_count / should_rename) disagrees with rename/binding.py on %d of %d distinct bindings, e.g. %s' % (len(failing), n, cases[failing[0]][:300])))
+    kinds_seen = collections.Counter(k.strip('()').split()[0] for key in seen for k in key[0])
+    return n, dict(kinds_seen)
+
 def run(pid, tier):
     res = common.Result(pid, tier)
     res.trusted = TRUSTED
     res.assumptions = ['length is measured in characters of the returned text', 'corpus files whose hash no longer matches corpus/PINNED.sha256 are skipped and counted']
-    common.standard_proof_phase(res, ['tokenrules'], 'Properties/C17.v')
+    common.standard_proof_phase(res, ['tokenrules'], 'Properties/C17.v', model_targets=['Model/Cost.vo'])
+    from harness import progs as progs_mod
+    rk = common.rng('C17K')
+    with common.coq_lock():
+        nK, kindsK = leg_K(res, IMPORT_SHAPES + list(progs_mod.DIRECTED) + progs_mod.programs(rk, 150 if tier == 'quick' else 1500))
     pinned = {}
     for line in open(os.path.join(common.VERIF, 'corpus', 'PINNED.sha256')):
         h, rel = line.rstrip('\n').split('  ', 1)
@@ -64,13 +155,17 @@ def run(pid, tier):
     paths = [os.path.join(common.STDLIB, r) for r in rels]
     srcdir = os.path.join(common.REPO, 'src', 'python_minifier')
     extra = [os.path.join(d, f) for d, _x, fs in os.walk(srcdir) for f in sorted(fs) if f.endswith('.py')]
+    synthetic = []
+    if res.broken:
+        # an obligation is broken: also look for a witness among small synthetic modules around the modelled cost accounting
+        synthetic = [('synthetic:%d' % k, src) for k, src in enumerate(IMPORT_SHAPES + list(progs_mod.DIRECTED) + progs_mod.programs(rk, 200))]
     with Pool(16) as pool:
-        results = pool.map(one, paths + extra, chunksize=4)
+        results = pool.map(one, paths + extra + synthetic, chunksize=4)
     n = skipped = 0
     hist = collections.Counter()
     shrink = collections.Counter()
     for path, h, rows in results:
-        rel = os.path.relpath(path, common.STDLIB) if path.startswith(common.STDLIB) else os.path.relpath(path, common.REPO)
+        rel = path if path.startswith('synthetic:') else os.path.relpath(path, common.STDLIB) if path.startswith(common.STDLIB) else os.path.relpath(path, common.REPO)
         if path.startswith(common.STDLIB) and pinned.get(rel) != h:
             skipped += 1
             continue
@@ -80,9 +175,14 @@ def run(pid, tier):
             if verdict == 'ok' and b < a:
                 shrink[o] += 1
             if verdict == 'longer':
-                res.add_violation('c17-longer:%s:%s:%s' % (rel, o, bname), 'enabling %s on base %s makes %s longer (%d -> %d characters)' % (o, bname, rel, a, b), {'file': rel, 'option': o, 'base': bname, 'without': a, 'with': b})
+                if rel.startswith('synthetic:') and o == 'hoist_literals':
+                    continue      # the hoisting cost model is known not to price spacing/indentation (C17_hoist_cost_model_refuted); synthetic witnesses are only sought for the other options
+                det = {'file': rel, 'option': o, 'base': bname, 'without': a, 'with': b}
+                if rel.startswith('synthetic:'):
+                    det['source'] = dict(synthetic)[rel]
+                res.add_violation('c17-longer:%s:%s:%s' % (rel, o, bname), 'enabling %s on base %s makes %s longer (%d -> %d characters)' % (o, bname, rel, a, b), det)
     res.samples = [{'file': rels[0], 'options': SIZE_OPTS, 'bases': ['all-off', 'defaults-minus-o']}]
-    res.coverage.update({'files': len(results) - skipped, 'files_skipped_hash_mismatch': skipped, 'triples_measured': n, 'verdicts': dict(hist), 'triples_where_option_shrinks_output': dict(shrink),
+    res.coverage.update({'leg_K_distinct_bindings_compared': nK, 'leg_K_reference_kinds': kindsK, 'files': len(results) - skipped, 'files_skipped_hash_mismatch': skipped, 'triples_measured': n, 'verdicts': dict(hist), 'triples_where_option_shrinks_output': dict(shrink),
                          'explanation': 'For every pinned corpus file, every size option o and both bases {all off, defaults minus o}: len(minify(S, base+o)) <= len(minify(S, base)) was measured with CPython; quick = every %d-th file (offset by VERIF_SEED), thorough = all files. The Coq theorems cover the local soundness of the cost model only.' % step,
                          'evaluations': n, 'distinct_nontrivial': sum(shrink.values()), 'exhaustive': step == 1,
                          'rule': 'case = (file, option, base); non-trivial = the option actually shrinks the output of that file'})
